@@ -19,4 +19,10 @@ def notLater (y m : Int) (p : Int × Int) : Bool := decide (p.1 < y) || (decide 
     insertion at the end of the previous day) -/
 def iers (y m : Int) : Int := ((iersDates.filter (notLater y m)).length : Int)
 
+/-- the instant, in years, from which the leap second of an IERS date counts: 1 January = `y`, 1 July = `y + 1/2` -/
+def iersKey (p : Int × Int) : Rat := (p.1 : Rat) + ((p.2 : Rat) - 1) / 12
+
+/-- number of IERS dates whose key is strictly below `l` (years) -/
+def iersBelow (l : Rat) : Int := ((iersDates.filter (fun p => decide (iersKey p < l))).length : Int)
+
 end Pymeeus.Spec
